@@ -1,0 +1,297 @@
+//! Verification hooks (only compiled with `--cfg flurry_verif`).
+#![allow(missing_docs, missing_debug_implementations)]
+use std::sync::atomic::Ordering;
+
+/// kinds of instrumented sites
+pub const LOAD: u8 = 0;
+pub const STORE: u8 = 1;
+pub const RMW: u8 = 2;
+pub const CAS: u8 = 3;
+
+#[derive(Clone, Copy)]
+pub struct Hooks {
+    /// called before every instrumented atomic operation
+    pub atomic: fn(addr: usize, kind: u8, ord: Ordering, ord_fail: Ordering),
+    /// called before a bin lock is acquired; must only return once the lock is free
+    pub before_lock: fn(addr: usize, is_locked: &dyn Fn() -> bool),
+    /// lock acquired / about to be released
+    pub locked: fn(addr: usize),
+    pub unlocking: fn(addr: usize),
+    /// spin-wait hint (init_table losers)
+    pub spin: fn(),
+    /// returns true if the hook performed the park
+    pub park: fn() -> bool,
+    pub unpark: fn(t: &std::thread::Thread),
+    pub event: fn(kind: u8, a: usize, b: usize),
+}
+
+static HOOKS: std::sync::atomic::AtomicPtr<Hooks> =
+    std::sync::atomic::AtomicPtr::new(std::ptr::null_mut());
+
+pub fn install(h: &'static Hooks) {
+    HOOKS.store(h as *const _ as *mut _, Ordering::SeqCst);
+}
+
+#[inline]
+fn hooks() -> Option<&'static Hooks> {
+    let p = HOOKS.load(Ordering::Relaxed);
+    if p.is_null() {
+        None
+    } else {
+        Some(unsafe { &*p })
+    }
+}
+
+#[inline]
+pub fn atomic(addr: usize, kind: u8, ord: Ordering, ord_fail: Ordering) {
+    if let Some(h) = hooks() {
+        (h.atomic)(addr, kind, ord, ord_fail)
+    }
+}
+#[inline]
+pub fn before_lock(m: &parking_lot::Mutex<()>) {
+    if let Some(h) = hooks() {
+        (h.before_lock)(m as *const _ as usize, &|| m.is_locked())
+    }
+}
+pub struct LockScope(usize);
+impl LockScope {
+    #[inline]
+    pub fn new(m: &parking_lot::Mutex<()>) -> Self {
+        let a = m as *const _ as usize;
+        if let Some(h) = hooks() {
+            (h.locked)(a)
+        }
+        LockScope(a)
+    }
+}
+impl Drop for LockScope {
+    fn drop(&mut self) {
+        if let Some(h) = hooks() {
+            (h.unlocking)(self.0)
+        }
+    }
+}
+#[inline]
+pub fn spin() {
+    if let Some(h) = hooks() {
+        (h.spin)()
+    }
+}
+#[inline]
+pub fn park() -> bool {
+    if let Some(h) = hooks() {
+        (h.park)()
+    } else {
+        false
+    }
+}
+#[inline]
+pub fn unpark(t: &std::thread::Thread) {
+    if let Some(h) = hooks() {
+        (h.unpark)(t)
+    }
+}
+#[inline]
+pub fn event(kind: u8, a: usize, b: usize) {
+    if let Some(h) = hooks() {
+        (h.event)(kind, a, b)
+    }
+}
+
+/// a bin of table `a` (index `b`) was replaced by the forwarding marker
+pub const EV_BIN_MOVED: u8 = 1;
+/// table `a` was replaced by table `b` as the map's current table
+pub const EV_TABLE_PUBLISHED: u8 = 2;
+/// `a` (address of a `Linked<_>`) was handed to the guard of collector `b` (0 = unprotected) for retirement
+pub const EV_RETIRE: u8 = 3;
+/// a guarded load of location `b` used a guard of collector `a` (0 = unprotected)
+pub const EV_GUARD_LOAD: u8 = 4;
+/// `check_guard` compared a guard of collector `a` with the map's collector `b`
+pub const EV_CHECK_GUARD: u8 = 5;
+/// a resize of table `a` with `b` bins was initiated (next table allocated)
+pub const EV_RESIZE_INIT: u8 = 6;
+
+#[inline]
+pub fn collector_id(guard: &seize::Guard<'_>) -> usize {
+    guard
+        .collector()
+        .map_or(0, |c| c as *const seize::Collector as usize)
+}
+
+/* ---- read-only inspector output (filled in by `HashMap::verif_dump`) ---- */
+
+pub struct TreeLinks {
+    pub parent: usize,
+    pub left: usize,
+    pub right: usize,
+    pub prev: usize,
+    pub red: bool,
+}
+pub struct NodeDump<'a, K, V> {
+    pub addr: usize,
+    pub hash: u64,
+    pub key: &'a K,
+    pub value_addr: usize,
+    pub value: Option<&'a V>,
+    pub next: usize,
+    pub locked: bool,
+    pub tree: Option<TreeLinks>,
+}
+pub enum BinDump<'a, K, V> {
+    Empty,
+    Moved,
+    List {
+        addr: usize,
+        nodes: Vec<NodeDump<'a, K, V>>,
+        truncated: bool,
+    },
+    Tree {
+        addr: usize,
+        locked: bool,
+        lock_state: i64,
+        root: usize,
+        first: usize,
+        waiter: usize,
+        /// nodes reachable from `first` through `next`
+        nodes: Vec<NodeDump<'a, K, V>>,
+        /// nodes reachable from `root` through `left`/`right` that are not in `nodes`
+        tree_only: Vec<NodeDump<'a, K, V>>,
+        truncated: bool,
+    },
+    /// a bare TreeNode where a bin head is expected (never legal)
+    Invalid {
+        addr: usize,
+    },
+}
+pub struct TableDump<'a, K, V> {
+    pub addr: usize,
+    pub moved_addr: usize,
+    pub next_table: usize,
+    pub bins: Vec<BinDump<'a, K, V>>,
+}
+pub struct Dump<'a, K, V> {
+    pub table: Option<TableDump<'a, K, V>>,
+    pub next_table: Option<TableDump<'a, K, V>>,
+    pub size_ctl: isize,
+    pub transfer_index: isize,
+    pub count: isize,
+    pub collector: usize,
+}
+
+macro_rules! traced_int {
+    ($name:ident, $inner:ty, $prim:ty) => {
+        #[derive(Debug)]
+        pub struct $name($inner);
+        impl $name {
+            pub const fn new(v: $prim) -> Self {
+                Self(<$inner>::new(v))
+            }
+            #[inline]
+            fn a(&self) -> usize {
+                self as *const _ as usize
+            }
+            pub fn load(&self, o: Ordering) -> $prim {
+                atomic(self.a(), LOAD, o, o);
+                self.0.load(o)
+            }
+            /// untraced read for the inspector
+            pub fn verif_peek(&self) -> $prim {
+                self.0.load(Ordering::SeqCst)
+            }
+            pub fn store(&self, v: $prim, o: Ordering) {
+                atomic(self.a(), STORE, o, o);
+                self.0.store(v, o)
+            }
+            pub fn fetch_add(&self, v: $prim, o: Ordering) -> $prim {
+                atomic(self.a(), RMW, o, o);
+                self.0.fetch_add(v, o)
+            }
+            pub fn fetch_sub(&self, v: $prim, o: Ordering) -> $prim {
+                atomic(self.a(), RMW, o, o);
+                self.0.fetch_sub(v, o)
+            }
+            pub fn compare_exchange(
+                &self,
+                c: $prim,
+                n: $prim,
+                s: Ordering,
+                f: Ordering,
+            ) -> Result<$prim, $prim> {
+                atomic(self.a(), CAS, s, f);
+                self.0.compare_exchange(c, n, s, f)
+            }
+        }
+    };
+}
+traced_int!(AtomicIsize, std::sync::atomic::AtomicIsize, isize);
+traced_int!(AtomicI64, std::sync::atomic::AtomicI64, i64);
+
+/// traced AtomicPtr (store/swap/CAS go through hooks; loads via `protect` are reported by `Atomic::load`)
+#[derive(Debug)]
+pub struct AtomicPtr<T>(std::sync::atomic::AtomicPtr<T>);
+impl<T> Default for AtomicPtr<T> {
+    fn default() -> Self {
+        Self(Default::default())
+    }
+}
+impl<T> From<*mut T> for AtomicPtr<T> {
+    fn from(p: *mut T) -> Self {
+        Self(p.into())
+    }
+}
+impl<T> std::ops::Deref for AtomicPtr<T> {
+    type Target = std::sync::atomic::AtomicPtr<T>;
+    fn deref(&self) -> &Self::Target {
+        &self.0
+    }
+}
+impl<T> AtomicPtr<T> {
+    #[inline]
+    fn a(&self) -> usize {
+        self as *const _ as usize
+    }
+    pub fn load(&self, o: Ordering) -> *mut T {
+        atomic(self.a(), LOAD, o, o);
+        self.0.load(o)
+    }
+    pub fn store(&self, p: *mut T, o: Ordering) {
+        atomic(self.a(), STORE, o, o);
+        self.0.store(p, o)
+    }
+    pub fn swap(&self, p: *mut T, o: Ordering) -> *mut T {
+        atomic(self.a(), RMW, o, o);
+        self.0.swap(p, o)
+    }
+    pub fn compare_exchange(
+        &self,
+        c: *mut T,
+        n: *mut T,
+        s: Ordering,
+        f: Ordering,
+    ) -> Result<*mut T, *mut T> {
+        atomic(self.a(), CAS, s, f);
+        self.0.compare_exchange(c, n, s, f)
+    }
+    pub fn into_inner(self) -> *mut T {
+        self.0.into_inner()
+    }
+}
+
+/// traced thread handle
+#[derive(Debug)]
+pub struct Thread(std::thread::Thread);
+impl Thread {
+    pub fn unpark(&self) {
+        unpark(&self.0);
+        self.0.unpark()
+    }
+}
+pub fn current() -> Thread {
+    Thread(std::thread::current())
+}
+pub fn park_traced() {
+    if !park() {
+        std::thread::park()
+    }
+}
